@@ -3,7 +3,7 @@
    c_value_type of every SamlBase subclass), as data.  The live tables are written by
    harness/classtables.py into gen/ClassTables.v (Definition live_table) on every run.
    Classes are referred to by their index in the table.  Shared by C12 and C13. *)
-From Coq Require Import String List Bool Arith.
+From Coq Require Import String List Bool Arith NArith.
 From Verif Require Import Base.Str Base.Xml.
 Import ListNotations.
 Open Scope string_scope.
@@ -16,7 +16,7 @@ Inductive attr_type := AT_simple (s : string) | AT_class (name : string).
 Record child_spec := {
   ch_tag : qname;            (* key of c_children: "{ns}Tag" *)
   ch_member : string;        (* python member name *)
-  ch_class : option nat;     (* member class (index); None = the table says None *)
+  ch_class : option N;       (* member class (index, binary); None = the table says None *)
   ch_list : bool             (* ("member", [Class]) : list-valued *)
 }.
 
@@ -48,7 +48,7 @@ Record class_info := {
 
 Definition table := list class_info.
 
-Definition class_at (T : table) (c : nat) : option class_info := nth_error T c.
+Definition class_at (T : table) (c : N) : option class_info := nth_error T (N.to_nat c).
 
 Definition find_child (ci : class_info) (tag : qname) : option child_spec :=
   find (fun s => qname_eqb (ch_tag s) tag) (c_children ci).
@@ -67,8 +67,14 @@ Definition smem := kmem String.eqb.
 Definition snodup := nodup_b String.eqb.
 Definition qnodup := nodup_b qname_eqb.
 
+(* the two attributes AttributeValueBase manages itself *)
+Definition XSI_NS : string := "http://www.w3.org/2001/XMLSchema-instance".
+Definition XS_NS : string := "http://www.w3.org/2001/XMLSchema".
+Definition xsi_type : qname := QN (Some XSI_NS) "type".
+Definition xsi_nil : qname := QN (Some XSI_NS) "nil".
+
 Definition reserved_members : list string :=
-  ["text"; "extension_elements"; "extension_attributes"; "encrypted_assertion"].
+  ["text"; "extension_elements"; "extension_attributes"].
 
 (* the member class of a child exists and carries exactly the tag under which it is registered *)
 Definition child_ok (T : table) (s : child_spec) : bool :=
@@ -92,7 +98,12 @@ Definition wf_class (T : table) (ci : class_info) : bool :=
   && forallb (fun m => smem m (map ch_member (c_children ci))) (child_order ci)
   && forallb (child_ok T) (c_children ci)
   && forallb (fun kv => smem (fst kv) (map at_member (c_attributes ci))) (c_parse_defaults ci)
-  && forallb (fun a => negb (is_xmlns_name (at_name a))) (c_attributes ci).
+  && forallb (fun a => negb (is_xmlns_name (at_name a))) (c_attributes ci)
+  && match c_kind ci with
+     | KPlain => true
+     | KAttrValue => forallb (fun a => negb (qname_eqb (at_name a) xsi_type || qname_eqb (at_name a) xsi_nil))
+                             (c_attributes ci)
+     end.
 
 Definition wf_table (T : table) : bool := forallb (wf_class T) T.
 
